@@ -12,12 +12,13 @@ import (
 
 func init() {
 	register(&Prop{
-		ID:    "C04",
-		Title: "With backpressure the stream is an exact, ordered edit script",
+		ID:          "C04",
+		Title:       "With backpressure the stream is an exact, ordered edit script",
 		Explanation: "R04.1 every path of Value.set / Collection.Update / Collection.Delete to a successful return passes exactly one Bus.Send and failing paths pass none. R04.2 the event built by Update is ADD exactly when the old value is absent or the item was created, ADD carries no old value; Delete emits REMOVE with the removed body. R04.3 the ChangeTime of the event is the same value the save stored as the item's change time (so WithWriteTime is honoured and a later seed reports the same instant); Delete's time comes from WriteRequest.updateTime. R04.4 seeds: only when !UpdatesOnly, sorted ascending by id, SeedValue true, LastSeedValue exactly for the last index, ChangeTime the stored change time, kind ADD; Value.Pull's seed carries both flags and the stored time. R04.5 in both forwarding loops an event is skipped only by the include verdict or by a configured equivalence. R04.6 the equivalence compares read-mask-projected values: for Value the last emitted (projected) value with the projected new one. Does NOT decide that the event sequence equals the writer's log for all histories, nor OldValue chaining.",
 		Assumptions: []string{"Bus.Send delivers each event once to each live listener in order (C10)"},
 		Run:         runC04,
 		Controls: []Control{
+			{Name: "revert-F60-pullid-last-seed-from-collection", File: "pkg/resource/collection.go", Old: "LastSeedValue: change.SeedValue}", New: "LastSeedValue: change.LastSeedValue}", Expect: "R04.10"},
 			{Name: "send-twice", File: "pkg/resource/collection.go", Old: "\t\tNewValue:   newValue,\n\t})\n\treturn newValue, nil", New: "\t\tNewValue:   newValue,\n\t})\n\tc.bus.Send(context.TODO(), &CollectionChange{Id: id})\n\treturn newValue, nil", Expect: "R04.1"},
 			{Name: "always-update", File: "pkg/resource/collection.go", Old: "\t\tchangeType = types.ChangeType_ADD\n\t\toldValue = nil", New: "\t\toldValue = nil", Expect: "R04.2"},
 			{Name: "add-keeps-old", File: "pkg/resource/collection.go", Old: "\t\tchangeType = types.ChangeType_ADD\n\t\toldValue = nil", New: "\t\tchangeType = types.ChangeType_ADD", Expect: "R04.2"},
@@ -32,6 +33,17 @@ func init() {
 }
 
 func runC04(c *an.Ctx) {
+	{
+		// the seed flags of single-item subscriptions (shares the walk of R03.7; only the seed clause is reported here)
+		sub := an.NewCtx(c.Prog, c.Property, c.Tier)
+		r037as(sub, "R03.7", "R04.10")
+		for _, o := range sub.Obls {
+			if o.Rule == "R04.10" {
+				c.Obls = append(c.Obls, o)
+			}
+		}
+		c.Min("R04.10", 1)
+	}
 	r041(c)
 	r042(c)
 	r043(c)
